@@ -11,6 +11,10 @@
 #include <frg/spinlock.hpp>
 #include <frg/manual_box.hpp>
 #include <frg/eternal.hpp>
+#include <frg/optional.hpp>
+#include <frg/variant.hpp>
+#include <frg/small_vector.hpp>
+#include <frg/utility.hpp>
 
 // ---- tuple (C17)
 using T1 = frg::tuple<int, wit::Elem>;
@@ -23,6 +27,7 @@ static_assert(std::is_same_v<decltype(std::declval<const TR &>().get<1>()), wit:
 static_assert(std::tuple_size<T1>::value == 2, "tuple: tuple_size counts the elements");
 static_assert(std::is_same_v<std::tuple_element<0, T1>::type, int> && std::is_same_v<std::tuple_element<1, T1>::type, wit::Elem>, "tuple: tuple_element yields the element types in order");
 static_assert(std::is_same_v<decltype(frg::tuple_cat(std::declval<frg::tuple<int, char>>(), std::declval<frg::tuple<long>>(), std::declval<frg::tuple<>>())), frg::tuple<int, char, long>>, "tuple: tuple_cat result lists the element types in argument order");
+static_assert(std::is_same_v<decltype(frg::tuple_cat(std::declval<frg::tuple<int &, long &&>>(), std::declval<frg::tuple<char, const wit::Elem &>>())), frg::tuple<int &, long &&, char, const wit::Elem &>>, "tuple: tuple_cat keeps reference elements references (they go on naming the caller's objects)");
 static_assert(std::is_same_v<decltype(frg::make_tuple(1, 'c')), frg::tuple<int, char>>, "tuple: make_tuple decays references");
 static_assert(std::is_same_v<decltype(frg::apply(std::declval<long (*)(int, char)>(), std::declval<frg::tuple<int, char>>())), long>, "tuple: apply returns the functor's result type");
 static_assert(std::is_same_v<decltype(frg::apply(std::declval<int &(*)(int, char)>(), std::declval<frg::tuple<int, char>>())), int &>, "tuple: apply returns a reference when the functor returns one (reference identity of the result)");
@@ -38,6 +43,8 @@ static_assert(!std::is_copy_constructible_v<frg::unique_lock<wit::Mutex>>, "guar
 static_assert(!std::is_copy_constructible_v<frg::shared_lock<wit::Mutex>>, "guards: shared_lock is not copy-constructible");
 static_assert(!std::is_copy_constructible_v<frg::lock_guard<wit::Mutex>> && !std::is_copy_assignable_v<frg::lock_guard<wit::Mutex>>, "guards: lock_guard is neither copy-constructible nor copy-assignable");
 static_assert(std::is_move_constructible_v<frg::unique_lock<wit::Mutex>> && std::is_move_constructible_v<frg::shared_lock<wit::Mutex>>, "guards: unique_lock/shared_lock are movable");
+namespace wit { struct ByteMutex { void lock(); void unlock(); void lock_shared(); void unlock_shared(); bool taken; }; }
+static_assert(alignof(wit::ByteMutex) == 1 && sizeof(frg::unique_lock<wit::ByteMutex>) > sizeof(wit::ByteMutex *) && sizeof(frg::shared_lock<wit::ByteMutex>) > sizeof(wit::ByteMutex *), "guards: the guard of a byte-aligned mutex (such as simple_spinlock) has room for its ownership flag beside the mutex pointer: no bit of that pointer is free to carry it");
 static_assert(!std::is_copy_constructible_v<frg::ticket_spinlock> && !std::is_copy_constructible_v<frg::simple_spinlock>, "spinlocks are not copyable");
 
 
@@ -51,6 +58,25 @@ constinit frg::manual_box<wit::Elem> wit_global_box; // WITNESS holder: a namesp
 // ---- variant storage (C17): as large as the largest alternative AND as strictly aligned as the strictest one -- which
 // need not be the same alternative (a 40-byte character array next to a 16-byte-aligned vector type)
 namespace wit { struct alignas(16) Strict16 { char c[16]; }; struct Big40 { char c[40]; }; struct Odd24 { long double x; char c[7]; }; }
-static_assert(sizeof(frg::aligned_union<wit::Big40, wit::Strict16>) >= sizeof(wit::Big40) && alignof(frg::aligned_union<wit::Big40, wit::Strict16>) >= alignof(wit::Strict16), "holder: the storage of a union of types is as large as its largest and as aligned as its strictest member, also when these are different members");
-static_assert(sizeof(frg::aligned_union<wit::Strict16, wit::Big40>) >= sizeof(wit::Big40) && alignof(frg::aligned_union<wit::Strict16, wit::Big40>) >= alignof(wit::Strict16), "holder: ... in either order of the members");
-static_assert(sizeof(frg::aligned_union<char, wit::Odd24, short>) >= sizeof(wit::Odd24) && alignof(frg::aligned_union<char, wit::Odd24, short>) >= alignof(wit::Odd24), "holder: ... and for three members with the widest in the middle");
+static_assert(sizeof(frg::aligned_union<wit::Big40, wit::Strict16>) >= sizeof(wit::Big40) && alignof(frg::aligned_union<wit::Big40, wit::Strict16>) >= alignof(wit::Strict16), "storage: the storage of a union of types is as large as its largest and as aligned as its strictest member, also when these are different members");
+static_assert(sizeof(frg::aligned_union<wit::Strict16, wit::Big40>) >= sizeof(wit::Big40) && alignof(frg::aligned_union<wit::Strict16, wit::Big40>) >= alignof(wit::Strict16), "storage: ... in either order of the members");
+static_assert(sizeof(frg::aligned_union<char, wit::Odd24, short>) >= sizeof(wit::Odd24) && alignof(frg::aligned_union<char, wit::Odd24, short>) >= alignof(wit::Odd24), "storage: ... and for three members with the widest in the middle");
+
+// ---- raw storage (C09, C10, C13, C16, C17): aligned_storage<Size, Align> is the memory every holder, the inline side of
+// small_vector and the radix tree's entry nodes construct their objects in. It must honour the alignment it is asked for,
+// whatever that is, and a union's storage must fit every member in every order.
+namespace wit {
+struct alignas(64) Over64 { char c[64]; };
+struct alignas(128) Over128 { char c; };
+template<typename... T> constexpr bool fits_all = ((sizeof(frg::aligned_union<T...>) >= sizeof(T)) && ...) && ((alignof(frg::aligned_union<T...>) >= alignof(T)) && ...);
+}
+static_assert(alignof(frg::aligned_storage<64, 64>) == 64 && sizeof(frg::aligned_storage<64, 64>) >= 64, "storage: aligned_storage<64, 64> is 64-aligned (an extended alignment is honoured, not clamped)");
+static_assert(alignof(frg::aligned_storage<sizeof(wit::Over128), alignof(wit::Over128)>) >= alignof(wit::Over128) && alignof(frg::aligned_storage<1, 1>) == 1 && alignof(frg::aligned_storage<3, 2>) == 2, "storage: aligned_storage has exactly the requested alignment for 1, 2 and 128");
+static_assert(wit::fits_all<long, char, wit::Big40> && wit::fits_all<long, wit::Big40, char> && wit::fits_all<char, long, wit::Big40> && wit::fits_all<char, wit::Big40, long> && wit::fits_all<wit::Big40, long, char> && wit::fits_all<wit::Big40, char, long>, "storage: a union's storage fits every member for all six orders of three members");
+static_assert(wit::fits_all<long, char, short, wit::Strict16, wit::Odd24, char> && wit::fits_all<wit::Over64, char> && wit::fits_all<char, wit::Over64> && wit::fits_all<int>, "storage: ... for one, two and six members, over-aligned ones included");
+static_assert(alignof(frg::optional<wit::Over64>) >= 64 && alignof(frg::manual_box<wit::Over64>) >= 64 && alignof(frg::variant<char, wit::Over64>) >= 64 && alignof(frg::small_vector<wit::Over64, 2, wit::Alloc>) >= 64, "storage: optional, manual_box, variant and small_vector are as aligned as an over-aligned element type");
+
+// ---- composition (C08, C11): get<Tag>() names the functor stored in the container, it does not copy it -- a stateful
+// locator or comparator must see its own updates
+namespace wit { struct SmallState { int n; int operator()(int) { return n++; } }; struct ComposeTag { }; }
+static_assert(std::is_same_v<decltype(frg::get<wit::ComposeTag>(std::declval<frg::composition<wit::ComposeTag, wit::SmallState> *>())), wit::SmallState &> && std::is_same_v<decltype(frg::composition<wit::ComposeTag, wit::SmallState>::get(nullptr)), wit::SmallState &>, "compose: get<Tag>(composition*) is a reference to the stored functor, also for a small trivially copyable one");
